@@ -129,6 +129,24 @@ theorem C14_worklist_terminates (c : SsaBuild.PCfg) (df : Nat → List Nat) (hdf
       obtain ⟨a, ha, _⟩ := hv
       cases ha
 
+/-- **the phi placement is the least closed one**, hence unique: it does not depend on the order in which the work list, the
+    frontier sets and the written variables are iterated (they are hash sets in the code) -/
+theorem C14_placement_least (c : SsaBuild.PCfg) (df : Nat → List Nat) (hdf : ∀ x j, j ∈ df x → j < c.blocks.length)
+    (fuel : Nat) (Pf : SsaBuild.Phis)
+    (hP : SsaBuild.insertPhis df (SsaBuild.written c) fuel (List.range c.blocks.length) (fun _ => []) = some Pf) :
+    SsaBuild.Closed c.blocks.length df (SsaBuild.written c) Pf ∧
+    ∀ Q, SsaBuild.Closed c.blocks.length df (SsaBuild.written c) Q → ∀ j v, v ∈ Pf j → v ∈ Q j :=
+  ⟨SsaBuild.insertPhis_closed_init c.blocks.length df (SsaBuild.written c) fuel Pf hP,
+   fun Q hQ => SsaBuild.insertPhis_least c.blocks.length df (SsaBuild.written c) hdf Q hQ fuel _ _ Pf
+     (fun y hy => List.mem_range.mp hy) (fun j v h => (List.not_mem_nil h).elim) hP⟩
+
+/-- two placements that are both closed and least have the same phi statements in every block -/
+theorem C14_placement_unique (n : Nat) (df : Nat → List Nat) (written : Nat → List Var) (P P' : SsaBuild.Phis)
+    (h : SsaBuild.Closed n df written P ∧ ∀ Q, SsaBuild.Closed n df written Q → ∀ j v, v ∈ P j → v ∈ Q j)
+    (h' : SsaBuild.Closed n df written P' ∧ ∀ Q, SsaBuild.Closed n df written Q → ∀ j v, v ∈ P' j → v ∈ Q j) :
+    ∀ j v, v ∈ P j ↔ v ∈ P' j :=
+  fun j v => ⟨h.2 P' h'.1 j v, h'.2 P h.1 j v⟩
+
 -- ---------------------------------------------------------------------------- the operational walk (`Model/SsaWalk.lean`)
 
 /-- **the conversion as the code runs it** — pre-order walk over the dominator tree, global version counters, the scoped
